@@ -20,6 +20,12 @@ FASTOR_INLINE bool does_alias(const AbstractTensor<Derived,DIM> &dst, const Tens
 // }
 
 
+// a scalar operand of an expression never aliases a tensor
+template<typename Derived, size_t DIM, typename U, enable_if_t_<is_primitive_v_<U>,bool> = false>
+FASTOR_INLINE bool does_alias(const AbstractTensor<Derived,DIM> &, U) {
+    return false;
+}
+
 #define FASTOR_MAKE_ALIAS_FUNC_UNARY_OPS(NAME)\
 template<typename Derived, size_t DIM, typename OtherDerived, size_t OtherDIM>\
 FASTOR_INLINE bool does_alias(const AbstractTensor<Derived,DIM> &dst, const Unary ##NAME ## Op<OtherDerived,OtherDIM> &src) {\
@@ -52,7 +58,7 @@ FASTOR_MAKE_ALIAS_FUNC_UNARY_OPS(Trans)
 #define FASTOR_MAKE_ALIAS_FUNC_BINARY_OPS(NAME)\
 template<typename Derived, size_t DIM, typename TLhs, typename TRhs, size_t OtherDIM>\
 FASTOR_INLINE bool does_alias(const AbstractTensor<Derived,DIM> &dst, const Binary ##NAME ## Op<TLhs,TRhs,OtherDIM> &src) {\
-    return does_alias(dst.self(),src.lhs().self()) || does_alias(dst.self(),src.rhs().self());\
+    return does_alias(dst.self(),src.lhs()) || does_alias(dst.self(),src.rhs());\
 }\
 
 FASTOR_MAKE_ALIAS_FUNC_BINARY_OPS(Add)
